@@ -171,6 +171,10 @@ qlisttbl_t *qconfig_parse_file(qlisttbl_t *tbl, const char *filepath,
             if (!(buf[0] == '/' || buf[0] == '\\')) {
                 char tmp[PATH_MAX];
                 char *dir = qfile_get_dir(filepath);
+                if (dir == NULL) {
+                    free(str);
+                    return NULL;
+                }
                 if (strlen(dir) + 1 + strlen(buf) >= sizeof(buf)) {
                     DEBUG("Can't process %s directive.", _INCLUDE_DIRECTIVE);
                     free(dir);
